@@ -354,6 +354,9 @@ pub fn variable_define(var_def: &VariableDefine, p: &Interpreter) -> MResult<Val
     let knd = kind_annotation(&knd_anntn.kind,p)?;
     let mut state_brrw = &mut p.state.borrow_mut();
     let target_knd = knd.to_value_kind(&mut state_brrw.kinds)?;
+    // A conversion to the kind the value already has hands back the argument's
+    // own cells, so a definition from a variable is copied after converting too.
+    let defined_from_variable = matches!(result, Value::MutableReference(_));
     // Do kind checking
     match (&result, &target_knd) {
       // Atom is a variant of an enum
@@ -454,7 +457,7 @@ pub fn variable_define(var_def: &VariableDefine, p: &Interpreter) -> MResult<Val
         result = converted_result;
       },
     };
-    let detached_result = detach_variable_value(&result);
+    let detached_result = if defined_from_variable { detach_variable_value(&result).deep_clone() } else { detach_variable_value(&result) };
     // Save symbol to interpreter
     let val_ref = state_brrw.save_symbol(var_id, var_name.clone(), detached_result.clone(), var_def.mutable);
     // Add variable define step to plan
